@@ -158,6 +158,10 @@ def lib_eval(rebound, c, L_callback=None, want_sim=False):
         else:
             raise ValueError(rt)
         rebound.clibrebound.reb_simulation_update_acceleration(ctypes.byref(sim))
+        if rt == "compensated":
+            # gravity_cs persists in the simulation between calls; the routine must zero it on entry (the model and
+            # the theorem C02_compensated_* start from zeros): the second call sees the non-zero array left by the first
+            rebound.clibrebound.reb_simulation_update_acceleration(ctypes.byref(sim))
         out = []
         for i in range(n):
             out += [ps[i].ax, ps[i].ay, ps[i].az]
@@ -581,6 +585,11 @@ def run(ctx):
     Lf.argtypes = [ctypes.c_void_p, ctypes.c_double, ctypes.c_double]
     items = [(coq_term(c), e) for c, e in zip(cases, expected)]
     items += [("(runL %s %s)" % (vlib.fhex(d), vlib.fhex(dc)), [Lf(None, d, dc)]) for d, dc in lc]
+    for nm, run in (("reb_integrator_mercurius_L_C4", "runL4"), ("reb_integrator_mercurius_L_C5", "runL5")):
+        Lg = getattr(rebound.clibrebound, nm)
+        Lg.restype = ctypes.c_double
+        Lg.argtypes = [ctypes.c_void_p, ctypes.c_double, ctypes.c_double]
+        items += [("(%s %s %s)" % (run, vlib.fhex(d), vlib.fhex(dc)), [Lg(None, d, dc)]) for d, dc in lc]
     # chunks balanced by cost ~ N^2 * boxes
     def cost(i):
         if i >= len(cases):
@@ -613,11 +622,11 @@ def run(ctx):
     ctx.traces = len(items) if corr_ok else 0
     def describe(i):
         if i >= len(cases):
-            return ("L_mercury",) + lc[i - len(cases)]
+            return ("L_mercury/C4/C5",) + lc[(i - len(cases)) % len(lc)]
         c = cases[i]
         return (c["routine"], c["N"], c["nact_raw"], c["tp"], c["ign"], c["ghost"])
     ctx.obligation("correspondence:C02 model(binary64) == reb_simulation_update_acceleration bit-for-bit on %d cases "
-                   "(+%d L_mercury values)" % (len(cases), len(lc)), corr_ok and not bad_total,
+                   "(+%d values each of L_mercury, L_C4, L_C5)" % (len(cases), len(lc)), corr_ok and not bad_total,
                    "mismatching cases: %s" % [describe(b) for b in sorted(bad_total)[:10]])
     dist = {}
     for c in cases:
